@@ -332,7 +332,18 @@ func (l *lexer) tryLexOperator() bool {
 		// the operator must not run into a name. Anything else may follow it,
 		// be it a space, a tab, a line break or a parenthesis.
 		if rest := l.input[l.pos+len(op):]; rest != "" && isName(rest[:1]) {
-			return false
+			// "not inactive" is the operator "not" followed by a name, not "not in";
+			// likewise "is nothing". Fall back to the first word of a two-word operator.
+			i := strings.Index(op, " ")
+			if i < 0 {
+				return false
+			}
+			if _, ok := binaryOperators[op[:i]]; !ok {
+				if _, ok := unaryOperators[op[:i]]; !ok {
+					return false
+				}
+			}
+			op = op[:i]
 		}
 	} else if op == delimTrimWhitespace {
 		if rest := l.input[l.pos+1:]; strings.HasPrefix(rest, delimClosePrint) || strings.HasPrefix(rest, delimCloseTag) {
